@@ -35,9 +35,9 @@ CLAIMED = {
         design="DESIGN.md §5 C15", engine="E4 render"),
     "C18": dict(
         category="fault_enumeration",
-        technique="fault-sequence enumeration: every script of length <= 4 (6) over five TCP peer behaviours, run against the real reader thread with a scripted loopback peer and a gated sleep, oracle = liveness, one 5 s pause per failed attempt, final table equal to the file source's",
-        text="Every sequence up to length 4 (6 in thorough: 19,531 scripts) over {refuse, accept+close, accept+frames+close, accept+partial line+reset, accept+junk+close}, followed by a healthy connection, is played by a scripted loopback peer against the real TCP reader; the interposed sleep records every pause and blocks until the script releases it, so each attempt is a sequenced event. The reader must stay alive, pause exactly once for about 5 s after each failed attempt, and end with the table the file source produces from the same lines (every aircraft learned earlier still present); the partial line is varied over all 27 prefix lengths. Thorough repeats the length-1 scripts against the real CLI with real pauses.",
-        note="Trusted: clock_nanosleep interposition (self-tested at start-up). Real network timing below the granularity connect/accept/send/close/reset is not explored; a partial line may or may not reach the reader before the reset (both admitted).",
+        technique="fault-sequence enumeration: every script of length <= 4 (5) over seven TCP peer behaviours (incl. a connection that stays healthy for 6 s of virtual monotonic time and long non-UTF-8 junk), run against the real reader thread with a scripted loopback peer and a gated sleep, oracle = liveness, one 5 s pause per failed attempt, final table equal to the file source's",
+        text="Every sequence up to length 4 (2,801 scripts; 5 in thorough: 19,608) over {refuse, accept+close, accept+frames+close, accept+partial line+reset, accept+junk+close, accept+frames+healthy for 6 s+close, accept+long non-UTF-8 junk+close}, followed by a healthy connection, is played by a scripted loopback peer against the real TCP reader; the interposed sleep records every pause and blocks until the script releases it, so each attempt is a sequenced event. The reader must stay alive, pause exactly once for about 5 s after each failed attempt, and end with the table the file source produces from the same lines (every aircraft learned earlier still present); the partial line is varied over all 27 prefix lengths. Thorough repeats the length-1 scripts against the real CLI with real pauses.",
+        note="Trusted: clock_nanosleep and CLOCK_MONOTONIC interposition (self-tested at start-up); elapsed time inside the TCP loop is virtual. Real network timing below the granularity connect/accept/send/close/reset is not explored; a partial line may or may not reach the reader before the reset (both admitted).",
         design="DESIGN.md §5 C18", engine="E3 fault enumeration"),
     "C10": dict(
         category="model_checking",
@@ -48,13 +48,13 @@ CLAIMED = {
     "C19": dict(
         category="model_checking",
         technique="lock-step product exploration of model ROW under pairs of option sets (10 presentation variants x 3 bases, depth 2/3; default vs -U on the valid-value sub-alphabet, depth 3/4), every step on the real reader thread; recordings as long histories in-process and through the CLI",
-        text="Each base option set {default,-U,-R} is explored over model ROW and on every transition the same action is applied to the same pre-state under each of ten presentation variants (-i x3, -o x2, -c, -u -1, -u 0, -D, -O): the resulting tables must be bit-identical (distance excluded for -O). Default and -U are stepped in lock-step from their own states over the valid-value DF4/5/11/17 alphabet with ticks; callsign, altitude, squawk, position, speed, track, vertical rate, category and surveillance status must agree after every step. The five bundled recordings are run under every pair in-process, and through the release CLI for -c, -M/-l, -D, -o.",
+        text="Each base option set {default,-U,-R} is explored over model ROW and on every transition the same action is applied to the same pre-state under each of ten presentation variants (-i x3, -o x2, -c, -u -1, -u 0, -D, -O, and two draw-every-frame combinations): the resulting tables must be bit-identical (distance excluded for -O). Default and -U are stepped in lock-step from their own states over the valid-value DF4/5/11/17 alphabet with ticks; callsign, altitude, squawk, position, speed, track, vertical rate, category and surveillance status must agree after every step. A 30-frame stream with -d 0 (two sweeps) and the five bundled recordings are run under every pair in-process, and through the release CLI for -c, -M/-l, -D, -o.",
         note="Trusted: in-process runs apply -O as main() does. -M and -l are only exercised through the CLI seam.",
         design="DESIGN.md §5 C19", engine="E2 explorer (product)"),
     "C03": dict(
         category="exploration",
         technique="complete-domain enumeration of all 2^24 addresses x 9 formats and all weight<=2 payload families on the real get_icao/reader thread vs an independent CRC-24; explicit-state search of model ROW (3 aircraft, depth 3) for row isolation",
-        text="Address recovery is executed for every one of the 2^24 addresses in each of the nine formats (three payloads in thorough) and for every payload of Hamming weight <= 2 (which exercises every bit of the polynomial and shift schedule) and compared with an independent bit-serial CRC-24; a stride of the same families goes through get_message and the reader thread (row key). Row isolation is decided by explicit-state search: every sequence of 80 frames/ticks for three colliding aircraft to depth 3 is executed on the real reader thread and every transition must leave all rows other than the frame's own bit-identical.",
+        text="Address recovery is executed for every one of the 2^24 addresses in each of the nine formats (three payloads in thorough) and for every payload of Hamming weight <= 2 (which exercises every bit of the polynomial and shift schedule) and compared with an independent bit-serial CRC-24; a stride of the same families goes through get_message and the reader thread (row key). Row isolation is decided by explicit-state search: every sequence of 80 frames/ticks for three colliding aircraft to depth 3 is executed on the real reader thread and every transition must leave all rows other than the frame's own bit-identical. Back-to-back 'region pair' families (frames equal except in one region) run on fresh threads to expose decoder state that survives between frames.",
         note="Trusted: reference CRC-24 and address rule. Interleavings deeper than 3 over the 80-action alphabet are not covered.",
         design="DESIGN.md §5 C03", engine="E1 sweep + E2 explorer"),
     "C08": dict(
@@ -66,7 +66,7 @@ CLAIMED = {
     "C11": dict(
         category="model_checking",
         technique="explicit-state breadth-first search over model ROW (26 frames of every supported format per aircraft + ticks; 2 aircraft depth 3/4, 3 aircraft depth 3), each transition executed on the real reader thread, one-step refinement against a reference fold",
-        text="All sequences to depth 3 (quick) / 4 (thorough) over 54 actions for two address-colliding aircraft (and 80 actions for three, thorough) under {default,-U,-R,-U -R} are executed from the empty table, de-duplicated on the canonical table state; on every transition the reference model is applied to the implementation's own pre-state: carried parameters must take the reference value, non-carried ones and all other rows must stay bit-identical, and re-feeding the frame must change nothing (probe on every transition).",
+        text="All sequences to depth 3 (quick) / 4 (thorough) over 54 actions for two address-colliding aircraft (and 80 actions for three, thorough) under {default,-U,-R,-U -R} are executed from the empty table, de-duplicated on the canonical table state; on every transition the reference model is applied to the implementation's own pre-state: carried parameters must take the reference value, non-carried ones and all other rows must stay bit-identical, re-feeding the frame must change nothing (probe on every transition), and every tick-free history at the depth bound fed as ONE continuous stream must reach the table the step-by-step exploration reached.",
         note="Trusted: reference semantics refmodel/sem.rs + bds.rs (admissible sets of DESIGN §4). Sequences longer than the depth bound are not covered.",
         design="DESIGN.md §5 C11", engine="E2 explorer"),
     "C12": dict(
@@ -96,19 +96,19 @@ CLAIMED = {
     "C04": dict(
         category="exploration",
         technique="bounded-exhaustive error-pattern enumeration (all 1-/2-bit errors, all bursts up to 12/24 bits with every interior pattern) executed on the real get_message and reader thread, verdict from an independent CRC-24",
-        text="For eight valid base squitters every 1-bit, every 2-bit and every burst error pattern (<=12 bits quick, <=24 thorough, all interior patterns) confined to bits 6..112 is applied; the expected verdict is computed with an independent bit-serial CRC-24 (DF11: upper 17 bits), and the real code must agree through get_message and, at table level, leave an empty and a populated table bit-identical. Exhaustive over the stated pattern families.",
+        text="For eight valid base squitters every 1-bit, every 2-bit and every burst error pattern (<=12 bits quick, <=24 thorough, all interior patterns) confined to bits 6..112 is applied, alone and directly after the valid frame on the same thread / in the same stream; the expected verdict is computed with an independent bit-serial CRC-24 (DF11: upper 17 bits), and the real code must agree through get_message and, at table level, leave an empty and a populated table bit-identical. Exhaustive over the stated pattern families.",
         note="Trusted: reference CRC-24 (frames.rs; checked against pinned frames and linearity). Heavier random patterns are not part of the verdict.",
         design="DESIGN.md §5 C04", engine="E1 sweep"),
     "C06": dict(
         category="exploration",
         technique="complete-domain enumeration: all 2^13 identity codes x DF5/DF21 x paths x option sets through the real reader thread vs an independent octal decoder",
-        text="All 8192 identity-field values in DF5 and DF21, under two/three settings of the remaining bits, as first frame and as update of a row holding a sentinel squawk, under {default,-U,-R,-U -R}: each executed through the real reader thread and compared with an independent A/B/C/D decoder; plus every other supported format applied to a row with a squawk (must not change it).",
+        text="All 8192 identity-field values in DF5 and DF21, under two/three settings of the remaining bits, as first frame and as update of a row holding a sentinel squawk (rows created by DF11 CA5, DF11 CA0, the DF5 alone or a DF20), under {default,-U,-R,-U -R}: each executed through the real reader thread and compared with an independent A/B/C/D decoder; plus every other supported format applied to a row with a squawk (must not change it).",
         note="Trusted: the reference bit order C1 A1 C2 A2 C4 A4 X B1 D1 B2 D2 B4 D4. A DF21 that creates the row may contribute the address only (stated).",
         design="DESIGN.md §5 C06", engine="E1 sweep"),
     "C16": dict(
         category="model_checking",
         technique="explicit enumeration of all input sequences up to depth 4/5 over a 15-symbol alphabet x 15 filter sets, every prefix observed on the real reader's stdout, against a reference counter fold; CLI trace conformance",
-        text="All sequences of length 4 (5 in thorough) over a 15-symbol alphabet (one accepted frame of each DF, a second aircraft, zero address, bad parity, junk) under 15 filter sets are run through the real reader thread with --update=-1 -c, so every prefix prints its counter line; each line is compared with a reference fold, refresh counts with accepted filter-passing frames, and the -f table with the table of the filtered sub-stream. All sequences up to length 3 are also run through the real release CLI and compared byte for byte.",
+        text="All sequences of length 4 (5 in thorough) over a 15-symbol alphabet (one accepted frame of each DF, a second aircraft, zero address, bad parity, junk) under 15 filter sets (multi-format lists given in non-ascending order) are run through the real reader thread with --update=-1 -c, so every prefix prints its counter line; each line is compared with a reference fold, refresh counts with accepted filter-passing frames, and the -f table with the table of the filtered sub-stream. All sequences up to length 3 are also run through the real release CLI and compared byte for byte.",
         note="Trusted: which alphabet symbols are accepted frames is known by construction (frames built with the reference CRC). DF24 counts under its own DF; its address reading is not judged.",
         design="DESIGN.md §5 C16", engine="E2-style sequence enumeration"),
     "C17": dict(
